@@ -216,7 +216,152 @@ const (
 	// (a, -a) shuffled among O(1) values: the sum is ill conditioned
 	// (Σ|x| ≫ |Σx|), which separates compensated from plain summation.
 	vcCancel vclass = numVClass + 2
+	// vcMix: finite values with two or three non-finite elements of
+	// DIFFERENT kinds at controlled positions and in a controlled order
+	// (+Inf then NaN, NaN then +Inf, +Inf then -Inf, -Inf then NaN, two Inf
+	// then NaN, ...), the positions drawn from the alignment-peel prefix
+	// (0, 1), the unrolled body (3, 4, 7, 8, n/2) and the tail (n-5, n-2,
+	// n-1); for two-operand routines the two specials go to the same operand
+	// or one to each, for complex types to the real or imaginary component
+	// (or both components of one element). The expected class (NaN / +Inf /
+	// -Inf) follows from the scalar definition and does not depend on the
+	// order; an implementation that stops at the first special it meets
+	// does.
+	vcMix vclass = numVClass + 3
 )
+
+// className names the engine-specific classes too.
+func className(vc vclass) string {
+	switch vc {
+	case vcRange:
+		return "extreme-scale"
+	case vcInfHead:
+		return "Inf-first-element"
+	case vcCancel:
+		return "cancelling-pairs"
+	case vcMix:
+		return "mixed-non-finite"
+	}
+	if int(vc) < len(vclassNames) {
+		return vclassNames[vc]
+	}
+	return "class?"
+}
+
+var mixKinds = [...][3]float64{
+	{math.Inf(1), math.NaN(), 0},
+	{math.NaN(), math.Inf(1), 0},
+	{math.Inf(1), math.Inf(-1), 0},
+	{math.Inf(-1), math.Inf(1), 0},
+	{math.Inf(-1), math.NaN(), 0},
+	{math.NaN(), math.Inf(-1), 0},
+	{math.Inf(1), math.NaN(), 1}, // with a further +Inf between the two
+	{math.NaN(), math.Inf(1), 1}, // with a further +Inf between the two
+}
+
+// applyMix plants pattern number m into x (and y). It returns a description.
+func applyMix[T num](x, y []T, m int) string {
+	n := len(x)
+	if n == 0 {
+		return "empty"
+	}
+	// candidate positions, ascending and distinct
+	var pos []int
+	for _, p := range []int{0, 1, 3, 4, 7, 8, n / 2, n - 5, n - 2, n - 1} {
+		if p < 0 || p >= n {
+			continue
+		}
+		dup := false
+		for _, q := range pos {
+			dup = dup || q == p
+		}
+		if !dup {
+			pos = append(pos, p)
+		}
+	}
+	for i := 1; i < len(pos); i++ {
+		for j := i; j > 0 && pos[j] < pos[j-1]; j-- {
+			pos[j], pos[j-1] = pos[j-1], pos[j]
+		}
+	}
+	kind := mixKinds[m%len(mixKinds)]
+	split := (m / 3) % 4
+	if y == nil {
+		split = 0
+	}
+	imag := isComplex[T]() && (m/5)%2 == 1
+	set := func(first bool, idx int, v float64) {
+		// which operand: split 0: last operand, 1: x, 2: first->x second->last, 3: first->last second->x
+		dst := x
+		if y != nil {
+			switch split {
+			case 0:
+				dst = y
+			case 2:
+				if !first {
+					dst = y
+				}
+			case 3:
+				if first {
+					dst = y
+				}
+			}
+		}
+		re, im := parts(dst[idx])
+		if imag {
+			im = v
+		} else {
+			re = v
+		}
+		dst[idx] = fromParts[T](re, im)
+	}
+	if len(pos) == 1 {
+		if isComplex[T]() {
+			// both specials in the two components of the only element
+			dst := x
+			if y != nil && split != 1 {
+				dst = y
+			}
+			dst[0] = fromParts[T](kind[0], kind[1])
+			return fmt.Sprintf("one element (%v,%v)", kind[0], kind[1])
+		}
+		set(true, 0, kind[m/8%2])
+		return fmt.Sprintf("single %v", kind[m/8%2])
+	}
+	// ordered pair i < j
+	np := len(pos) * (len(pos) - 1) / 2
+	pi := (m/len(mixKinds) + m*5) % np
+	i, j := 0, 1
+	for c := 0; ; c++ {
+		if c == pi {
+			break
+		}
+		j++
+		if j == len(pos) {
+			i++
+			j = i + 1
+		}
+	}
+	set(true, pos[i], kind[0])
+	set(false, pos[j], kind[1])
+	desc := fmt.Sprintf("%v@%d then %v@%d split=%d imag=%v", kind[0], pos[i], kind[1], pos[j], split, imag)
+	if kind[2] == 1 && pos[j]-pos[i] > 1 {
+		mid := (pos[i] + pos[j]) / 2
+		set(true, mid, math.Inf(1))
+		desc += fmt.Sprintf(" +Inf@%d", mid)
+	}
+	return desc
+}
+
+// nfCode maps a result component to its non-finite class (0 = finite): the
+// cross-build join of reductions on non-finite inputs compares classes, not
+// rounded finite values.
+func nfCode(bits uint64) uint64 {
+	if finiteF(math.Float64frombits(bits)) {
+		return 0
+	}
+	return bits
+}
 
 func genCancel[T num](r *vrt.Rand, n int) []T {
 	v := make([]float64, n)
@@ -288,6 +433,9 @@ func runRed[T num](c *vrt.Ctx, k *redKernel[T], n int, reduced bool) {
 	if !k.skip[vcInf] {
 		classes = append(classes, vcInfHead)
 	}
+	if !k.skip[vcInf] && !k.skip[vcNaN] {
+		classes = append(classes, vcMix)
+	}
 	if k.l2 {
 		classes = append(classes, vcRange)
 	}
@@ -295,6 +443,7 @@ func runRed[T num](c *vrt.Ctx, k *redKernel[T], n int, reduced bool) {
 		classes = append(classes, vcCancel)
 	}
 	maxExp := k.maxExp
+	mixCtr := n * 13
 	if reduced {
 		if len(incs) > 3 {
 			incs = []incTriple{{1, 1, 1}, {2, 3, 1}, {3, 1, 2}}
@@ -312,24 +461,45 @@ func runRed[T num](c *vrt.Ctx, k *redKernel[T], n int, reduced bool) {
 				continue
 			}
 			reps := 1
-			if vc == vcRange {
+			switch vc {
+			case vcRange:
 				reps = 8
 				if len(incs) > 1 {
 					reps = 2
 				}
+			case vcMix:
+				// unit-stride routines have a single increment tuple: more patterns per placement
+				reps = c.Pick(4, 12)
+				if len(incs) > 1 {
+					reps = c.Pick(1, 3)
+				}
 			}
 			for rep := 0; rep < reps; rep++ {
 				for _, pl := range casePlacements(c, pls, vc, n, ii+rep) {
-					dig, ok := runRedCase(c, t, r, k, n, it, vc, pl, maxExp, rep+n)
-					if vc == vcInt && k.intExact {
-						path := "unit"
-						if k.strided {
-							path = "strided"
-							if it.d < 0 || (k.nsrc >= 2 && it.x < 0) {
-								path = "strided-neg"
-							}
+					arg := rep + n
+					if vc == vcMix {
+						arg = mixCtr
+						mixCtr++
+					}
+					dig, ok := runRedCase(c, t, r, k, n, it, vc, pl, maxExp, arg)
+					path := "unit"
+					if k.strided {
+						path = "strided"
+						if it.d < 0 || (k.nsrc >= 2 && it.x < 0) {
+							path = "strided-neg"
 						}
+					}
+					switch {
+					case vc == vcInt && k.intExact:
 						dg.add(fmt.Sprintf("%s|%s|n=%d", k.name, path, n), dig, ok)
+					case vc == vcNaN || vc == vcInf || vc == vcInfHead || vc == vcMix:
+						// the class (finite / NaN / +Inf / -Inf) of a reduction over
+						// non-finite input is defined by the scalar loop: builds must agree
+						var cl []uint64
+						for _, b := range dig {
+							cl = append(cl, nfCode(b))
+						}
+						dg.add(fmt.Sprintf("%s|%s|n=%d|non-finite-class", k.name, path, n), cl, ok)
 					}
 				}
 			}
@@ -355,12 +525,23 @@ func runRedCase[T num](c *vrt.Ctx, t *tally, r *vrt.Rand, k *redKernel[T], n int
 		}
 		return gen[T](r, vc, n, maxExp)
 	}
-	xv := mkvals(k.nsrc < 2)
+	mixNote := ""
+	var xv, yv []T
+	if vc == vcMix {
+		xv = gen[T](r, vcUniform, n, maxExp)
+		if k.nsrc >= 2 {
+			yv = gen[T](r, vcUniform, n, maxExp)
+		}
+		mixNote = applyMix(xv, yv, rep)
+	} else {
+		xv = mkvals(k.nsrc < 2)
+		if k.nsrc >= 2 {
+			yv = mkvals(true)
+		}
+	}
 	a.x = newBuf(xv, pl.offD, it.d, pl.mode)
 	defer a.x.release()
-	var yv []T
 	if k.nsrc >= 2 {
-		yv = mkvals(true)
 		a.y = newBuf(yv, pl.offX, it.x, pl.mode)
 		defer a.y.release()
 	}
@@ -377,19 +558,11 @@ func runRedCase[T num](c *vrt.Ctx, t *tally, r *vrt.Rand, k *redKernel[T], n int
 			path = "strided-neg"
 		}
 	}
-	vcName := "extreme-scale"
-	switch {
-	case vc == vcInfHead:
-		vcName = "Inf-first-element"
-	case vc == vcCancel:
-		vcName = "cancelling-pairs"
-	case vc != vcRange:
-		vcName = vc.String()
-	}
+	vcName := className(vc)
 	key := k.name + "|" + path + "|" + pl.mode.String() + "|" + vcName + "|" + nClass(n)
 	mk := func(note string, got, want any) *replay {
 		return &replay{Routine: k.name, N: n, Inc: []int{it.d, it.x}, Off: []int{pl.offD, pl.offX}, Place: pl.mode.String(),
-			Class: vcName, X: xv, Y: yv, Note: note, Got: got, Want: want}
+			Class: vcName, X: xv, Y: yv, Note: note + mixNote, Got: got, Want: want}
 	}
 	if c.WantSample() && n > 2 && n < 8 && vc == vcHugeTiny {
 		c.Sample(mk("sample input", nil, nil))
@@ -421,7 +594,7 @@ func runRedCase[T num](c *vrt.Ctx, t *tally, r *vrt.Rand, k *redKernel[T], n int
 	ok, wr, wi, clause := k.check(n, xv, yv, gr, gi, vc == vcInt && k.intExact)
 	if !ok {
 		c.Violationf(k.name+"|"+path+"|"+clause, mk("", []float64{gr, gi}, []float64{wr, wi}),
-			"%s n=%d inc=%v off=%d/%d %s %s: got (%s,%s), reference (%s,%s)", k.name, n, it, pl.offD, pl.offX, pl.mode, vcName, fmtf(gr), fmtf(gi), fmtf(wr), fmtf(wi))
+			"%s n=%d inc=%v off=%d/%d %s %s %s: got (%s,%s), reference (%s,%s)", k.name, n, it, pl.offD, pl.offX, pl.mode, vcName, mixNote, fmtf(gr), fmtf(gi), fmtf(wr), fmtf(wi))
 		return nil, false
 	}
 	return []uint64{canonBits(gr + 0), canonBits(gi + 0)}, true
